@@ -1,6 +1,6 @@
 SPECIFICATION Spec
 CONSTANTS
-  NilSendEOF = FALSE
+  NilSend = "either"
   Caps = {0, 1}
   Nils = {FALSE}
   Depth = 2
